@@ -1,10 +1,10 @@
 package main
 
 import (
-	"go/token"
-	"go/ast"
 	"fmt"
+	"go/ast"
 	"go/constant"
+	"go/token"
 	"go/types"
 	"sort"
 	"strings"
@@ -18,9 +18,9 @@ type connInfo struct {
 	fn        *ssa.Function // the function that runs the frame loop
 	setup     *ssa.Function // the function that reads the header and builds recorders/processor (== fn unless the loop was split off)
 	loopCall  *ssa.Call     // in setup: the call that leads to fn (nil when setup == fn)
-	reader    ssa.Value // the bufio.Reader
+	reader    ssa.Value     // the bufio.Reader
 	hdrCall   *ssa.Call
-	hdrArg    int // which argument of hdrCall is the reader (0 for headers.ReadHeaderInfo itself)
+	hdrArg    int       // which argument of hdrCall is the reader (0 for headers.ReadHeaderInfo itself)
 	probe     *ssa.Call // first ReadFull in the loop
 	rest      *ssa.Call // second ReadFull
 	marker    string
